@@ -275,6 +275,14 @@ def c03_loader_checks(repo: Repo, tier: str, res: CheckResult, seed: int, prop: 
                 res.add(_gen_finding(prop, "TV.absence-decision", prog, line, "absence decided by " + dec.split(":")[0],
                                      f"absence of the key at {list(pth) if pth else pth} is decided by `{dec}`, not by a missing-key "
                                      "test: a present value is replaced by the default"))
+        for setvar, encl, guard, line in S.forbid_guards:
+            if encl:
+                res.add(_gen_finding(prop, "TV.forbid-check-conditional", prog, line, "unknown-key check under if " + abstract_construct(encl[0]),
+                                     f"the unknown-key check `{setvar} = set(..) - known_keys` runs only when `{encl[0]}`: unknown keys "
+                                     "pass unnoticed otherwise (the policy is to reject EXACTLY when there is an unknown key)"))
+            if guard != setvar:
+                res.add(_gen_finding(prop, "TV.forbid-rejection-guard", prog, line, f"rejection guarded by {guard}",
+                                     f"ExtraFieldsLoadError must be raised exactly when `{setvar}` is non-empty, found guard `{guard}`"))
         # (1) every field is read from its crown path, once
         by_field: Dict[str, List[FieldRead]] = {}
         for r in S.reads:
@@ -975,6 +983,7 @@ def _loader_fingerprint(S: LoaderSummary) -> Dict[str, Any]:
         "len": sorted((a, b, c) for a, b, c, _ in S.len_checks),
         "type_checks": sorted(set((a, b) for a, b, _ in S.type_checks)),
         "absence": sorted({(repr(p), d) for p, d, _ in S.absence}),
+        "forbid_guards": sorted((a, tuple(b), c) for a, b, c, _ in S.forbid_guards),
         "ctor": norm(call) if call is not None else None,
         "defaults": {k: sorted(set(v)) for k, v in sorted(S.defaults.items())},
     }
@@ -1617,3 +1626,232 @@ def c13_pipeline_checks(repo: Repo, tier: str, res: CheckResult, seed: int) -> N
             res.sample({"configuration": cfg, "expected_top": [list(map(str, w)) for w in want_top], "verdict": "agrees"})
     res.count("PIPE.configurations", n, 150)
     res.count("PIPE.converters-produced", n_ok, 50)
+
+
+# ================================================================================================ C03: whole layout pipeline
+def _style_oracle(name: str, style: Optional[str]) -> str:
+    """name style conversion of a snake_case identifier, written from the documentation table"""
+    if style is None:
+        return name
+    core = name.strip("_")
+    front = name[:len(name) - len(name.lstrip("_"))]
+    back = name[len(name.rstrip("_")):] if core else ""
+    words = core.split("_")
+    if style == "camel":
+        conv = words[0].lower() + "".join(w.title() for w in words[1:])
+    elif style == "pascal":
+        conv = "".join(w.title() for w in words)
+    elif style == "upper_snake":
+        conv = "_".join(w.upper() for w in words)
+    elif style == "lower_kebab":
+        conv = "-".join(w.lower() for w in words)
+    elif style == "lower":
+        conv = "".join(w.lower() for w in words)
+    else:
+        raise AnalysisError(f"oracle: unknown style {style}")
+    return front + conv + back
+
+
+def _pred_matches(pred: str, field: str) -> bool:
+    if pred.isidentifier():
+        return pred == field
+    return re.fullmatch(pred, field) is not None
+
+
+def _layout_oracle(cfg: dict, fields: List[List], direction: str):
+    """({field: path or None}, extra policy, sieved fields, error or None) by the documented rules"""
+    nms = cfg["nms"]
+
+    def scalar(key, default):
+        for nm in nms:
+            if key in nm:
+                return nm[key]
+        return default
+    trim = scalar("trim_trailing_underscore", True)
+    style = scalar("name_style", None)
+    as_list = scalar("as_list", False)
+    skip = scalar("skip", [])
+    only = scalar("only", None)
+    omit = scalar("omit_default", False)
+    extra = scalar("extra_in" if direction == "loader" else "extra_out", "skip")
+    maps = [el for nm in nms for el in nm.get("map", [])]
+    order = [f[0] for f in fields]
+    req = {f[0]: f[1] for f in fields}
+    paths: Dict[str, Optional[Tuple]] = {}
+    for f in order:
+        if extra == "rest" and f == "rest":
+            continue
+        if as_list:
+            gen: Any = order.index(f)
+        else:
+            name = f
+            if trim and name.endswith("_") and not name.endswith("__"):
+                name = name.rstrip("_")
+            gen = _style_oracle(name, style)
+        result: Any = "<none>"
+        for el in maps:
+            if el["t"] == "dict":
+                if f in el["m"]:
+                    result = el["m"][f]
+                    break
+            elif _pred_matches(el["pred"], f):
+                result = el["v"]
+                break
+        if result == "<none>" and direction == "dumper" and f.startswith("_"):
+            result = None
+        if result == "<none>":
+            path: Optional[Tuple] = (gen,)
+        elif result is None:
+            path = None
+        elif result == "...":
+            path = (gen,)
+        elif isinstance(result, list):
+            path = tuple(gen if x == "..." else x for x in result)
+        else:
+            path = (result,)
+        if path is not None and (f in skip or (only is not None and f not in only)):
+            path = None
+        paths[f] = path
+    # validation
+    err = None
+    if direction == "loader" and any(p is None and req[f] for f, p in paths.items()):
+        err = "required field skipped"
+    present = {f: p for f, p in paths.items() if p is not None}
+    vals = list(present.values())
+    if len(set(vals)) != len(vals):
+        err = err or "duplicate paths"
+    for p1 in vals:
+        for p2 in vals:
+            if p1 != p2 and len(p1) < len(p2) and p2[:len(p1)] == p1:
+                err = err or "prefix"
+    if direction == "loader" and any(isinstance(p[-1], int) and not req[f] for f, p in present.items()):
+        err = err or "optional field in list"
+    kinds: Dict[Tuple, set] = {}
+    for p in vals:
+        for i in range(len(p)):
+            kinds.setdefault(p[:i], set()).add(type(p[i]).__name__)
+    if any(len(k) > 1 for k in kinds.values()):
+        err = err or "inconsistent path elements"
+    # extras are merged into / collected from mappings: a list root (dumper) or any list node (collecting loader) has no
+    # place for them -- documented refusals
+    if direction == "loader" and extra == "rest" and any(isinstance(k, int) for p in vals for k in p):
+        err = err or "collecting extra_in with list mapping"
+    root_is_list = (bool(vals) and isinstance(vals[0][0], int)) or (not vals and as_list)
+    if direction == "dumper" and extra == "rest" and root_is_list:
+        err = err or "extra_out with list mapping"
+    sieved = set()
+    if direction == "dumper":
+        for f, p in present.items():
+            # an element of a list cannot be left out (positions are significant): only dict entries are sieved
+            if not req[f] and isinstance(p[-1], str) and (omit is True or (isinstance(omit, list) and f in omit)):
+                sieved.add(f)
+    return paths, extra, sieved, err, kinds
+
+
+def _parse_hook_source(src: str) -> Tuple[Optional[ast.FunctionDef], Dict[str, str]]:
+    body = "\n".join(l for l in src.split("\n") if not l.startswith("return "))
+    tree = ast.parse(body)
+    alias = {}
+    for st in tree.body:
+        if isinstance(st, ast.Assign) and isinstance(st.targets[0], ast.Name) and isinstance(st.value, ast.Name):
+            alias[st.targets[0].id] = st.value.id
+    fn = next((x for x in tree.body if isinstance(x, ast.FunctionDef)), None)
+    return fn, alias
+
+
+def c03_layout_checks(repo: Repo, tier: str, res: CheckResult, seed: int) -> None:
+    from .genaudit import audit_dumper, audit_loader
+    recs = [r for r in run_child(repo, tier, seed, "layoutpipe") if r.get("kind") == "layoutpipe"]
+    NL = "adaptix/_internal/morphing/name_layout/component.py"
+    n = n_prog = 0
+    for r in recs:
+        if r.get("harness_error"):
+            raise AnalysisError(f"layoutpipe harness failed on configuration {r['idx']}: {r['harness_error']}")
+        cfg = r["cfg"]
+        n += 1
+        cdesc = json.dumps({k: v for k, v in cfg.items() if k != "with_rest"}, sort_keys=True)
+        res.evaluated(f"G:layoutpipe:{r['idx']}", True)
+        for direction in ("loader", "dumper"):
+            paths, extra, sieved, err, kinds = _layout_oracle(cfg, r["fields"], direction)
+            got = r[direction]
+
+            def bad(rule: str, construct: str, msg: str) -> None:
+                res.add(Finding("C03", rule, NL, "BuiltinStructureMaker", construct[:160],
+                                f"{direction} for name_mapping configuration #{r['idx']} {cdesc[:500]}: {msg}", 0,
+                                extra={"cfg": cfg}))
+            if err is not None:
+                if got["error"] is None:
+                    bad("LAYOUT.invalid-accepted", f"{direction} created", f"a {direction} was produced although the layout is "
+                        f"invalid ({err}; paths {paths})")
+                continue
+            if got["error"] is not None:
+                bad("LAYOUT.refused", f"creation failed: {got['error']}", f"the documented rules give the valid layout {paths} but "
+                    f"the {direction} could not be created")
+                continue
+            if len(got["sources"]) != 1:
+                raise AnalysisError(f"layoutpipe #{r['idx']}: expected one emitted {direction}, found {len(got['sources'])}")
+            n_prog += 1
+            try:
+                fn, alias = _parse_hook_source(got["sources"][0])
+            except SyntaxError as ex:
+                bad("LAYOUT.does-not-parse", direction, f"emitted source does not parse: {ex}")
+                continue
+            present = {f: p for f, p in paths.items() if p is not None}
+            if direction == "loader":
+                S = audit_loader(fn)
+                reads = {}
+                for rd in S.reads:
+                    if rd.via in ("loader", "as-is") and rd.path is not None:
+                        reads.setdefault(rd.field_id, set()).add(tuple(rd.path))
+                exp = {f: {p} for f, p in present.items()}
+                if reads != exp:
+                    diffs = [f"{f}: read from {sorted(map(list, reads.get(f, [])))} expected {list(present[f]) if f in present else 'not read'}"
+                             for f in sorted(set(reads) | set(exp)) if reads.get(f) != exp.get(f)]
+                    bad("LAYOUT.field-path", "; ".join(diffs)[:150], "the loader does not take each field from the path the "
+                        "documented rules assign (map > trim/name_style, first matching map entry, skip > only, as_list index = "
+                        "position in the model): " + "; ".join(diffs)[:400])
+                has_forbid = bool(S.forbid_checks)
+                if (extra == "forbid") != has_forbid:
+                    bad("LAYOUT.extra-policy", f"forbid check present={has_forbid}", f"extra_in={extra} but the program "
+                        f"{'checks' if has_forbid else 'does not check'} for unknown keys")
+                collects = any(rd.via == "extra" for rd in S.reads)
+                if (extra == "rest") != collects:
+                    bad("LAYOUT.extra-policy", f"extras collected={collects}", f"extra_in={extra} but extras are "
+                        f"{'collected' if collects else 'not collected'} into the target field")
+            else:
+                S = audit_dumper(fn)
+                written = {}
+                placeholders = []
+                for pth, ent in S.tree.items():
+                    if ent[0] in ("field", "opt-field"):
+                        written.setdefault(ent[1], set()).add(tuple(pth))
+                    elif ent[0] == "placeholder":
+                        placeholders.append(tuple(pth))
+                exp = {f: {p} for f, p in present.items()}
+                if written != exp:
+                    diffs = [f"{f}: written to {sorted(map(list, written.get(f, [])))} expected {list(present[f]) if f in present else 'not written'}"
+                             for f in sorted(set(written) | set(exp)) if written.get(f) != exp.get(f)]
+                    bad("LAYOUT.field-path", "; ".join(diffs)[:150], "the dumper does not write each field to the path the "
+                        "documented rules assign: " + "; ".join(diffs)[:400])
+                # list gaps -> None placeholders
+                want_gaps = set()
+                for prefix, ks in kinds.items():
+                    if ks == {"int"}:
+                        idxs = {p[len(prefix)] for p in present.values() if p[:len(prefix)] == prefix and len(p) > len(prefix)}
+                        want_gaps |= {prefix + (i,) for i in range(max(idxs)) if i not in idxs}
+                if set(placeholders) != want_gaps:
+                    bad("LAYOUT.list-gaps", f"placeholders at {sorted(map(list, placeholders))}", "list layouts must fill exactly "
+                        f"the gaps {sorted(map(list, want_gaps))} with None placeholders")
+                got_sieved = {ent[1] for ent in S.tree.values() if ent[0] in ("field", "opt-field") and ent[2] is not None}
+                if got_sieved != sieved:
+                    bad("LAYOUT.omit-default", f"conditional fields {sorted(got_sieved)}", f"omit_default must make exactly the "
+                        f"fields {sorted(sieved)} conditional")
+                has_extra = S.extra_source is not None
+                if (extra == "rest") != has_extra:
+                    bad("LAYOUT.extra-policy", f"extra source {S.extra_source}", f"extra_out={extra} but the program "
+                        f"{'merges' if has_extra else 'does not merge'} extras")
+        if len(res.samples) < 10 and n % 29 == 1:
+            res.sample({"configuration": cfg, "loader_paths": {k: (list(v) if v else None) for k, v in _layout_oracle(cfg, r['fields'], 'loader')[0].items()},
+                        "verdict": "agrees"})
+    res.count("LAYOUT.configurations", n, 120)
+    res.count("LAYOUT.programs-audited", n_prog, 80)
